@@ -90,6 +90,7 @@ func c13GenProgram(rng *kit.RNG) (prog []c13Round, ngroups int) {
 				}
 				a.Gate = rng.Chance(4, 10)
 				a.CloseAfterEnd = rng.Chance(6, 10)
+				a.Linger = rng.Chance(3, 10)
 			case x < 68:
 				a.Kind = "cancel"
 			case x < 78:
@@ -126,7 +127,7 @@ func TestVerifC13Schedules(t *testing.T) {
 		return
 	}
 	defer env.stop()
-	n := kit.Scale(4000, 60000)
+	n := kit.Scale(50000, 400000)
 	root := kit.NewRNG(kit.Mix(kit.Seed(), 0xC13))
 	seeds := make([]uint64, n)
 	for i := range seeds {
@@ -240,6 +241,7 @@ func TestVerifC13Handover(t *testing.T) {
 		prog, policy := k.program()
 		st := <-env.pool
 		c := c13NewCase(rep, "handover", i, kit.Mix(base, uint64(i)), env.srv, st, 1, policy, prog)
+		c.label = k.String()
 		c.run()
 		if i%577 == 0 {
 			rep.Sample(map[string]interface{}{"combination": k.String(), "program": c13ProgString(prog), "outcome": c.signature()})
